@@ -20,7 +20,7 @@ ASSUMPTIONS = [
 
 
 def _subst_text(f, expr):
-    return U(C.flow_of(f).subst(expr))
+    return U(C.norm_strings(C.flow_of(f).subst(expr)))
 
 
 def _path_exprs(ctx, f):
@@ -42,7 +42,7 @@ def _path_exprs(ctx, f):
                     continue
                 out[role] = t
                 out[role + "_var"] = name
-                out[role + "_node"] = C.flow_of(f).subst(n.value)
+                out[role + "_node"] = C.norm_strings(C.flow_of(f).subst(n.value))
     return out
 
 
@@ -330,10 +330,9 @@ def run(ctx):
     ctx.floor("R2", "returns of cached data", len(rets), 2)
     for r in rets:
         v = U(r.value)
-        facts = [(U(e), p) for e, p in C.facts_at(r)]
-        ok = any(p and t in ("%s.get('internal_version') == self.INTERNAL_VERSION" % v,
-                             "%s['internal_version'] == self.INTERNAL_VERSION" % v,
-                             "self.INTERNAL_VERSION == %s.get('internal_version')" % v) for t, p in facts)
+        facts = C.implied_facts(rd, r)
+        ok = any(p and t in (C.CT("%s.get('internal_version') == self.INTERNAL_VERSION" % v),
+                             C.CT("%s['internal_version'] == self.INTERNAL_VERSION" % v)) for t, p in facts)
         if ok:
             ctx.node_ok("R2", rd, r, "return %s under internal_version == INTERNAL_VERSION" % v)
         else:
